@@ -163,7 +163,7 @@ var (
 	clVersions  = []string{"not-one-installed-version", "mgmt-panic", "invalid-text-accepted"}
 	// two in-flight requests on one engine instance see each other's injected data / observer
 	clShared    = []string{"foreign-request-data", "stray-event", "unscheduled-rule-ran", "ran-more-than-once"}
-	clCapacity  = []string{"more-than-max-in-flight", "request-did-not-wait", "pool-capacity-lost", "mgmt-panic"}
+	clCapacity  = []string{"more-than-max-in-flight", "request-did-not-wait", "pool-capacity-lost", "mgmt-panic", "waiter-not-served-although-instance-free"}
 	clIsolation = []string{"foreign-request-data", "stale-injected-key-visible", "result-map-modified-after-return", "request-data-modified-after-return",
 		"stray-event", "unscheduled-rule-ran", "event-after-return", "result-map"}
 )
